@@ -2,4 +2,9 @@
 
 package all
 
-import _ "verif/harness/internal/props/c02"
+import (
+	"verif/harness/internal/props/c02"
+	c02proxy "verif/harness/internal/props/c02/proxy"
+)
+
+func init() { c02.ProxyLayer = c02proxy.Layer }
